@@ -20,6 +20,14 @@ case = {"layer": "tie", "path": "copy"|"buffered", "server": "tcp"|"low", "timeo
                   the piece becomes readable |o| iterations before (o < 0) / in (o == 0) / o iterations after (o > 0) the
                   iteration in which the timer of the current yield fires), "bad": bool (a frame the serializer rejects)}]}
 
+TLS twin (`"tls": true`, optional `"tls_max": "1.2"|"1.3"`): the same servers with `ssl=ctx` (AsyncTCPNetworkServer) / behind
+the library's `AsyncTLSListener` (AsyncStreamServer), the peer a real `ssl.SSLObject` (memory BIOs) over the loopback socket,
+the handshake stepped turn by turn.  A piece is then what the peer WRITES: one TLS record per piece; with `"rec": true` on a
+request the whole request is ONE record and the pieces are slices of its ciphertext (`cuts` in ciphertext bytes: 1..5 = inside
+the record header): the deadline of the yielded timeout passes while the server holds a partial record.  The peer's FIN is
+close_notify + FIN.  What is exercised on top of the plain cases: `AsyncTLSStreamTransport._retry_ssl_method()` cancelled by
+the timeout's scope while it refills the read BIO from the socket adapter, then used again.
+
 The driver is synchronous code: between two turns it writes to the peer socket (and waits until the kernel reports the
 bytes on the server-side descriptor: FIONREAD), sets the clock to the deadline, reads what the handler recorded.  Nothing
 runs between two turns, nothing depends on wall-clock time; waits that involve the kernel or the resolver thread are bounded
@@ -33,6 +41,7 @@ import fcntl
 import logging
 import select
 import socket
+import ssl
 import struct
 import termios
 import time
@@ -139,6 +148,10 @@ class Recorder:
                     self.waiting = "-"
                     self.events.append("err:" + type(e).__name__)
                     n += 1
+                    if isinstance(e, OSError):
+                        # a connection error (never on the unchanged library: the peer leaves with a FIN): a handler that went
+                        # on asking would be thrown the same error again, without a checkpoint, for ever
+                        return
                     continue
                 self.waiting = "-"
                 self.events.append(f"req:{req}")
@@ -182,6 +195,58 @@ class Driver:
         self.rec = Recorder(case)
         self.lines: list[str] = []
         self.fin_sent = False
+        self.tls = bool(case.get("tls"))
+        self.p_obj: Any = None
+        self.p_in: Any = None
+        self.p_out: Any = None
+        self.send_failed: str | None = None
+
+    # ---- TLS peer
+    def tls_handshake(self, peer: socket.socket) -> None:
+        """the peer's side of the handshake, the server stepped turn by turn in between (nothing blocks)"""
+        from vlib import c15_tls
+        self.p_in, self.p_out = ssl.MemoryBIO(), ssl.MemoryBIO()
+        self.p_obj = c15_tls.client_context(self.case.get("tls_max", "1.3")).wrap_bio(
+            self.p_in, self.p_out, server_side=False, server_hostname="localhost")
+        peer.setblocking(False)
+        t0 = time.monotonic()
+        done = False
+        while not done:
+            try:
+                self.p_obj.do_handshake()
+                done = True
+            except ssl.SSLWantReadError:
+                pass
+            out = self.p_out.read()
+            if out:
+                peer.setblocking(True)
+                peer.settimeout(IO_BOUND)
+                peer.sendall(out)
+                peer.setblocking(False)
+            if done:
+                break
+            # the server's answer
+            while True:
+                self.loop.turn()
+                try:
+                    d = peer.recv(65536)
+                except BlockingIOError:
+                    d = None
+                if d:
+                    self.p_in.write(d)
+                    break
+                if d == b"":
+                    raise core.InfraError(f"C15 tie: the server hung up during the TLS handshake: {self.case}")
+                if time.monotonic() - t0 > IO_BOUND:
+                    raise core.InfraError(f"C15 tie: the TLS handshake did not complete within {IO_BOUND}s: {self.case}")
+                if self.loop.turns % 20 == 0:
+                    time.sleep(0.0002)
+        peer.setblocking(True)
+        peer.settimeout(IO_BOUND)
+
+    def encrypt(self, data: bytes) -> bytes:
+        self.p_obj.write(data)
+        return self.p_out.read()
 
     # ---- stepping
     def spin(self, cond, label: str) -> None:
@@ -213,8 +278,20 @@ class Driver:
     def send(self, peer: socket.socket, data: Any) -> None:
         """the bytes are in the server socket's receive queue when this returns"""
         fd = self.rec.sock.fileno()
+        if self.send_failed is not None:
+            return
         if data is FIN:
-            peer.shutdown(socket.SHUT_WR)
+            try:
+                if self.tls:
+                    try:
+                        self.p_obj.unwrap()
+                    except ssl.SSLError:        # (WantRead: our close_notify is in the BIO, the server's has not come yet)
+                        pass
+                    peer.sendall(self.p_out.read())
+                peer.shutdown(socket.SHUT_WR)
+            except OSError as e:
+                self.send_failed = type(e).__name__
+                return
             self.fin_sent = True
             if fd != -1:
                 po = select.poll()
@@ -223,7 +300,12 @@ class Driver:
                     raise core.InfraError(f"C15 tie: the peer's FIN did not arrive within {IO_BOUND}s")
             return
         before = fionread(fd) if fd != -1 else 0
-        peer.sendall(data)
+        try:
+            peer.sendall(data)
+        except OSError as e:
+            # the server has dropped the connection (never on the unchanged library: the peer is the one that leaves)
+            self.send_failed = type(e).__name__
+            return
         if fd == -1:
             return
         t0 = time.monotonic()
@@ -238,14 +320,21 @@ class Driver:
         proto: Any = (BufferedStreamProtocol if case.get("path") == "buffered" else StreamProtocol)(StringLineSerializer())
         max_recv = int(case.get("max_recv", 16384))
         if case.get("server", "tcp") == "tcp":
+            kw: dict[str, Any] = {}
+            if self.tls:
+                from vlib import c15_tls
+                kw["ssl"] = c15_tls.server_context()
             server = AsyncTCPNetworkServer(HOST, 0, proto, Handler(self.rec), backend=AsyncIOBackend(),
-                                           log_client_connection=False, max_recv_size=max_recv)
+                                           log_client_connection=False, max_recv_size=max_recv, **kw)
             box["server"] = server
             box["port"] = lambda: server.get_addresses()[0].port
             await server.serve_forever(is_up_event=up)
         else:
             be = AsyncIOBackend()
             (lst,) = await be.create_tcp_listeners(HOST, 0, 8)
+            if self.tls:
+                from vlib import c15_tls
+                lst = c15_tls.wrap_listener(lst)        # the library's AsyncTLSListener
             low = AsyncStreamServer(lst, proto, max_recv)
             box["low"] = low
             port = lst.extra(INETSocketAttribute.sockname)[1]
@@ -276,13 +365,20 @@ class Driver:
             rec.peer_port = peer.getsockname()[1]
             peer.connect((HOST, box["port"]()))
             peer.setsockopt(socket.IPPROTO_TCP, socket.TCP_NODELAY, 1)
+            if self.tls:
+                self.tls_handshake(peer)
             self.spin(lambda: rec.connected and rec.waiting != "-", "the connection's first yield")
             for i, req in enumerate(case["reqs"]):
                 self.play(peer, i, req)
             # the peer hangs up: everything still undelivered must come out, then the generator is closed
             mark = len(rec.events)
             if not self.fin_sent:
-                peer.shutdown(socket.SHUT_WR)
+                self.send(peer, FIN)
+                if not self.fin_sent:
+                    with contextlib.suppress(OSError):
+                        peer.shutdown(socket.SHUT_WR)
+            if self.send_failed is not None:
+                self.lines.append(f"send-failed {self.send_failed}")
             self.spin(lambda: rec.disc > 0 or serve.done(), "the end of the connection after the peer's EOF")
             self.quiesce()
             self.lines.append("end events=" + ",".join(rec.events[mark:]))
@@ -308,6 +404,22 @@ class Driver:
             pieces.append(data[pos:pos + c])
             pos += c
         pieces.append(data[pos:])
+        if self.tls and self.send_failed is None:
+            try:
+                if req.get("rec"):
+                    # ONE record; the pieces are slices of its ciphertext
+                    ct = self.encrypt(data)
+                    sl, pos = [], 0
+                    for c in cuts:
+                        c = max(1, min(c, len(ct) - pos - 1))
+                        sl.append(ct[pos:pos + c])
+                        pos += c
+                    sl.append(ct[pos:])
+                    pieces = sl
+                else:
+                    pieces = [self.encrypt(x) for x in pieces]       # one record per piece
+            except ssl.SSLError as e:
+                self.send_failed = type(e).__name__
         offs = (offs + [offs[-1]] * len(pieces))[:len(pieces)]
         if self.case.get("eof_off") is not None and i == len(self.case["reqs"]) - 1:
             # the peer hangs up right behind its last request: the FIN is one more "piece" of the schedule
@@ -390,6 +502,8 @@ def run_real(case: dict) -> tuple[list[str], dict]:
 # ----------------------------------------------------------------------------------------------------------------------
 def describe(case: dict) -> str:
     srv = "AsyncTCPNetworkServer" if case.get("server", "tcp") == "tcp" else "AsyncStreamServer"
+    if case.get("tls"):
+        srv += ("(ssl=ctx)" if case.get("server", "tcp") == "tcp" else " behind AsyncTLSListener") + f" [TLS {case.get('tls_max', '1.3')}]"
     proto = "BufferedStreamProtocol (recv_into)" if case.get("path") == "buffered" else "StreamProtocol (recv)"
     return f"{srv} on loopback, {proto}, handler yielding timeouts {case.get('timeouts')}"
 
@@ -406,7 +520,11 @@ def oracle(case: dict, real: list[str]) -> str | None:
     got_all = [e for e in allv.split(",") if e]
     got = [e for e in got_all if e != "timeout"]
     # 1. each request exactly once, in order (a malformed one as a parse error at its position); nothing else is thrown
-    if got != want:
+    dropped = next((ln for ln in real if ln.startswith("send-failed ")), None)
+    if got != want or dropped:
+        if got == want:
+            return (f"{what}: the server dropped the connection while the peer was still sending ({dropped}); all events: {got_all}; "
+                    + "; ".join(ln for ln in real if ln.startswith("round ")))
         k = next((j for j in range(max(len(got), len(want))) if j >= len(got) or j >= len(want) or got[j] != want[j]), 0)
         # which round carried the tie?
         rounds = [ln for ln in real if ln.startswith("round ")]
@@ -458,7 +576,14 @@ def nontrivial(case: dict, real: list[str]) -> str | None:
             feats.add("bad")
     if any("timeout" in ln for ln in real if ln.startswith("round ")):
         feats.add("timeout")
-    return f"tie/{case.get('server', 'tcp')}/{case.get('path')}/" + "+".join(sorted(feats))
+    if case.get("tls"):
+        # a deadline passed (TimeoutError in the handler) and a later request of the same connection was delivered
+        evs = [e for ln in real if ln.startswith("round ") and "events=" in ln for e in ln.split("events=")[1].split(",")]
+        if "timeout" in evs and any(e.startswith(("req:", "parse")) for e in evs[evs.index("timeout"):]):
+            feats.add("later")
+        if any(r.get("rec") and r.get("cuts") for r in case["reqs"]):
+            feats.add("midrecord")
+    return f"tie{'-tls' if case.get('tls') else ''}/{case.get('server', 'tcp')}/{case.get('path')}/" + "+".join(sorted(feats))
 
 
 def shrink(case: dict):
@@ -471,11 +596,15 @@ def shrink(case: dict):
             yield {**case, "reqs": reqs[:i] + [{**r, "cuts": r["cuts"][:-1], "offs": r["offs"][:-2] + r["offs"][-1:]}] + reqs[i + 1:]}
         if r.get("bad"):
             yield {**case, "reqs": reqs[:i] + [{**r, "bad": False}] + reqs[i + 1:]}
+        if r.get("rec"):
+            yield {**case, "reqs": reqs[:i] + [{**r, "rec": False}] + reqs[i + 1:]}
     for key, val in (("resp", False), ("per_gen", 0), ("max_recv", 16384), ("server", "low"), ("eof_off", None)):
         if case.get(key) != val:
             yield {**case, key: val}
     if len(case.get("timeouts") or []) > 1:
         yield {**case, "timeouts": case["timeouts"][:1]}
+    if case.get("tls") and case.get("tls_max", "1.3") != "1.3":
+        yield {**case, "tls_max": "1.3"}
 
 
 def corpus() -> list[dict]:
@@ -497,10 +626,49 @@ def corpus() -> list[dict]:
                            "max_recv": 64, "resp": True,
                            "reqs": [{"offs": [1]}, {"cuts": [3, 4][:len(offs) - 1], "offs": offs}, {"offs": [0], "bad": True},
                                     {"offs": [-1]}]})
+    return cs + corpus_tls()
+
+
+def corpus_tls() -> list[dict]:
+    """the TLS twin: yielded timeouts that expire while the server waits for bytes of a TLS connection - before any byte of
+    the request, inside the request (a record per piece), inside a TLS record (slices of one record's ciphertext, the first
+    cut inside the 5-byte header) - the handler goes on, the peer sends the rest / the next requests; then close_notify + FIN"""
+    cs = []
+    for path in ("buffered", "copy"):
+        for server in ("tcp", "low"):
+            for tls_max in ("1.3", "1.2"):
+                base = {"layer": "tie", "path": path, "server": server, "tls": True, "tls_max": tls_max, "max_recv": 16384}
+                # the history of the clause: request, silence (deadline passes), request, request cut in two by a deadline
+                cs.append({**base, "timeouts": [0.5], "per_gen": 2, "resp": True,
+                           "reqs": [{"offs": [-2]}, {"offs": [2]}, {"cuts": [3], "offs": [-1, 2]}, {"offs": [-1]}]})
+                # ... cut inside the TLS record (header / body / tag), pieces before - in - after the deadline iteration
+                cs.append({**base, "timeouts": [0.5], "per_gen": 0, "resp": False,
+                           "reqs": [{"offs": [1]}, {"rec": True, "cuts": [3], "offs": [-1, 1]}, {"rec": True, "cuts": [5, 9], "offs": [-2, 0, 2]},
+                                    {"rec": True, "cuts": [20], "offs": [0, 0]}, {"offs": [-1]}]})
+            # ties: the record readable in the very iteration of the deadline; FIN (close_notify) behind the last request
+            for off in (-1, 0, 1):
+                cs.append({"layer": "tie", "path": path, "server": server, "tls": True, "timeouts": [None, 0.5], "per_gen": 0,
+                           "max_recv": 16384, "resp": False, "eof_off": 0,
+                           "reqs": [{"offs": [0]}, {"offs": [off]}, {"offs": [1], "bad": True}, {"rec": True, "cuts": [4], "offs": [off, off + 1]}]})
     return cs
 
 
 def gen_case(rng) -> dict:
+    c = _gen_case(rng)
+    if rng.random() < 0.3:
+        c["tls"] = True
+        c["tls_max"] = rng.choice(["1.3", "1.3", "1.2"])
+        for r in c["reqs"]:
+            if rng.random() < 0.4:
+                r["rec"] = True
+                r["cuts"] = [rng.choice([1, 3, 5, 6, 12, 20]) for _ in r.get("cuts", [])]
+            if rng.random() < 0.4:
+                # the deadline passes before the (last piece of the) request: TimeoutError first, the request afterwards
+                r["offs"] = sorted(r["offs"][:-1] + [rng.choice([1, 1, 2, 3])])
+    return c
+
+
+def _gen_case(rng) -> dict:
     reqs = []
     for _ in range(rng.choice([1, 2, 2, 3, 4])):
         n = rng.choice([1, 1, 2, 2, 3])
